@@ -111,6 +111,21 @@ CLAIMED["C19"] = ("Proof (deductive, every fault position) of the error discipli
   "Assumed: contracts of sctp Read/Write/Close, ngap.Decoder/Encoder, the NAS constructors and build-and-encode wrappers (return octets or an error); functional preconditions of callees are assumed here (they belong to C01/C02); run-time panics end the process.",
   "DESIGN.md §I.2 C19")
 
+CLAIMED["C01"] = ("Proof (deductive, every reply the AMF may send, every configuration) of the emulator's side of the exchange at driver level, over ghost logs written by the contracts of the callees: "
+  "ManageNGSetup builds exactly one NGAP message, the NG SETUP REQUEST with the configured gNB id length; RegisterUE builds, in this order, INITIAL UE MESSAGE (RAN-UE-NGAP-ID of the UE), UPLINK NAS TRANSPORT x2, INITIAL CONTEXT SETUP RESPONSE, UPLINK NAS TRANSPORT, "
+  "each with the AMF-UE-NGAP-ID taken from the AMF's reply and the UE's RAN-UE-NGAP-ID; the NAS messages are Registration Request, Authentication Response, Registration Request (for the container), Security Mode Complete, Registration Complete; "
+  "exactly two messages are security protected: Security Mode Complete with header type 4, new context, COUNT 0, and Registration Complete with header type 2, COUNT 1; the stored uplink COUNT ends at 2 "
+  "(EncodeNasPduWithSecurity proved against NASEncode's contract, C06). The pieces the statement composes are decided under their own properties: octets of each NGAP message (C13, C03), SUCI/PLMN (C11), RES* and keys (C05, C15), envelope and MAC (C06, C07).",
+  "NOT decided: acceptance by a reference AMF as a whole conversation (no peer is run; kernel SCTP and a socket hook are not used by this technique), the contents of the NAS messages built by nasTestpacket (constructors are assumed: they record what they were asked to build), "
+  "the decoded contents the driver reads from replies (ngap.Decoder is assumed to return a message or an error). Functional preconditions of callees are assumed at driver level (proved where the callee is claimed). Run-time panics end the procedure.",
+  "DESIGN.md §I.2 C01")
+CLAIMED["C02"] = ("Proof (deductive, every reply, every UE state) at driver level over the same ghost logs: EstablishPDU, ServiceRequest, ReleasePDU and DeregisterUE build exactly the NGAP messages of their procedure in order, each with the UE's own AMF-UE-NGAP-ID and RAN-UE-NGAP-ID; "
+  "one PDU session identity in 1..15 is used in the NAS request, the NAS release complete and the NGAP response of a procedure (for every SUPI \"imsi-\" + up to 15 digits); every protected NAS message uses header type 2, the stored uplink COUNT, and leaves COUNT+1 stored — so within a procedure and across consecutive procedures no COUNT is used twice before 2^24 messages; "
+  "the reported UE address / TEID / UPF address are the extractors' results (C12).",
+  "NOT decided: main()'s loops (UE counts, Min clamps, which index each loop acts on) — main is outside the executor's subset (channels, third-party XDP packages, slices of pointers of symbolic length); acceptance by a reference AMF/SMF; NAS message contents (assumed constructors). "
+  "COUNT wrap after 2^24 protected messages is not excluded by the code and not claimed. Found and repaired under this check: the session identity was the last four SUPI digits, truncated differently in NAS and NGAP (fix commit in /repo).",
+  "DESIGN.md §I.2 C02")
+
 PENDING = {
 }
 
